@@ -8,6 +8,12 @@ from . import model
 from .facts import operand_const, operand_place, place_str
 
 IDENTITY_CALLS = (
+    "<alloc::boxed::Box<T, A>>::leak",
+    "<alloc::boxed::Box<T, alloc::alloc::Global>>::leak",
+    "<alloc::boxed::Box<T, alloc::alloc::Global>>::into_raw",
+    "<alloc::boxed::Box<T, A>>::into_raw",
+    "<core::ptr::non_null::NonNull<T> as core::convert::From<&mut T>>::from",
+    "<core::ptr::non_null::NonNull<T> as core::convert::From<&T>>::from",
     "<core::ptr::non_null::NonNull<T>>::as_ptr",
     "<core::ptr::non_null::NonNull<T>>::new_unchecked",
     "<core::ptr::non_null::NonNull<T>>::cast",
